@@ -301,26 +301,25 @@ class YP(object):
         if False:
                 yield False
 
+    def _goal_name_args(self, goal):
+        """returns the name and the argument list of the (dereferenced) goal."""
+        goal_value = get_value(goal)
+        if isinstance(goal_value, Atom):
+            return goal_value.name(), []
+        elif isinstance(goal_value, Functor):
+            return goal_value._name, goal_value._args
+        raise YPException('Goal is not callable: %s' % (goal_value,))
+
     def findall(self, template, goal, bag):
         '''findall/3 returns values according to template into bag, that satisfy goal.'''
-        # assumes goal is instantiated
-        q = self.query(goal._name,goal._args)
+        q = self.call(goal)
         results = self.makelist([ get_value(template) for r in q ])
         for y in unify(bag, results):
             yield False
 
     def call(self,goal,*args):
         '''call/n (:Goal, Arg, ...). Calls Goal with args appended to its arguments.'''
-        goal_value = get_value(goal)
-        if isinstance(goal_value, Atom):
-            goal_name = to_python(goal_value)
-            goal_args = []
-        elif isinstance(goal_value, Functor):
-            goal_name = goal._name
-            goal_args = goal._args
-        else:
-            # TODO: raise exception
-            pass
+        goal_name, goal_args = self._goal_name_args(goal)
         yield from self.query(goal_name, goal_args + list(args))
 
     def once(self, goal):
@@ -330,28 +329,19 @@ class YP(object):
 
     def asserta(self, term):
         '''asserta(Term) adds Term to the facts database at the beginning.'''
-        if isinstance(term, Functor):
-            self.assert_fact(self.atom(term._name), term._args, False)
-        elif isinstance(term, Atom):
-            self.assert_fact(term, [], False)
+        name, args = self._goal_name_args(term)
+        self.assert_fact(self.atom(name), args, False)
         return YPSuccess()
 
     def assertz(self, term):
         '''assertz(Term) adds Term to the facts database at the end.'''
-        if isinstance(term, Functor):
-            self.assert_fact(self.atom(term._name), term._args)
-        elif isinstance(term, Atom):
-            self.assert_fact(term, [])
+        name, args = self._goal_name_args(term)
+        self.assert_fact(self.atom(name), args)
         return YPSuccess()
 
     def retract(self, term):
         '''retract(Term) removes all dynamic facts matching Term and backtracks over identical clauses.'''
-        if isinstance(term, Functor):
-            name = term._name
-            args = term._args
-        elif isinstance(term, Atom):
-            name = term
-            args = []
+        name, args = self._goal_name_args(term)
 
         remaining_clauses = self._find_predicates(name, len(args))[:]
         i = 0
@@ -368,12 +358,7 @@ class YP(object):
 
     def retractall(self, term):
         '''retractall(Term) removes all dynamic facts matching Term, without backtracking over identical clauses.'''
-        if isinstance(term, Functor):
-            name = term._name
-            args = term._args
-        elif isinstance(term, Atom):
-            name = term
-            args = []
+        name, args = self._goal_name_args(term)
         remaining_clauses = []
         for clause in self._find_predicates(name, len(args)):
             match = False
